@@ -79,7 +79,7 @@ Record LR2 := mkLR2 { lr2p : V2; lr2v : V2 }.
 Record LR3 := mkLR3 { lr3p : V3; lr3v : V3 }.
 Record PlaneR := mkPlane { pl_n : V3; pl_o : V3; pl_k : Q; pl_x : V3; pl_y : V3 }.
 Record Arc2R := mkArc2 { a2_c : V2; a2_r : Q; a2_a1 : Q; a2_a2 : Q }.
-Record Arc3R := mkArc3 { a3_plane : PlaneR; a3_r : Q; a3_a1 : Q; a3_a2 : Q }.
+Record Arc3R := mkArc3 { a3_plane : PlaneR; a3_arc2d : Arc2R }.
 Record SphereR := mkSphere { sp_c : V3; sp_r : Q }.
 Record ConeR := mkCone { co_vertex : V3; co_axis : V3; co_angle : Q }.
 Record CylR := mkCyl { cy_c : V3; cy_axis : V3; cy_r : Q }.
